@@ -154,6 +154,30 @@ func (g *Gen) assumeTypeInv(v *Val, brk string) {
 		g.assume(and(sx("wf-slice", v.T), sx("<", sx("sl-base", v.T), brk)))
 	case *types.Pointer, *types.Map, *types.Chan:
 		g.assume(sx("<", v.T, brk))
+	case *types.Struct:
+		g.assumeStructInv(v.T, t, u, brk, 0)
+	}
+}
+
+// assumeStructInv: type invariants of the fields of a struct VALUE (slices are
+// well-formed, unsigned fields non-negative), two levels deep.
+func (g *Gen) assumeStructInv(term string, t types.Type, u *types.Struct, brk string, depth int) {
+	if depth > 2 {
+		return
+	}
+	for i := 0; i < u.NumFields(); i++ {
+		ft := u.Field(i).Type()
+		ftm := sx(g.st.fieldSel(t, i), term)
+		switch fu := ft.Underlying().(type) {
+		case *types.Slice:
+			g.assume(sx("wf-slice", ftm))
+		case *types.Basic:
+			if fu.Info()&types.IsUnsigned != 0 {
+				g.assume(sx("<=", "0", ftm))
+			}
+		case *types.Struct:
+			g.assumeStructInv(ftm, ft, fu, brk, depth+1)
+		}
 	}
 }
 
